@@ -4,6 +4,8 @@ CONSTANTS
   Deviations <- NoDev
   JunkBytes <- MCJunk
   RegistryOps = FALSE
+  Receivers = FALSE
+  OpSet <- AllOps
 CHECK_DEADLOCK FALSE
 
 INVARIANT Export
